@@ -24,7 +24,7 @@ func init() {
 		ID: "C16",
 		Rule: "documents of both grammars (rendered from random trees with comments and hostile trivia; half of them broken by one token mutation) are parsed without a limit and then with EVERY limit L in 0..T+2, " +
 			"T = number of non-EOF tokens counted by the independent reference lexer (comments included); oracle: L=0 or L>=T reproduces the unlimited result (reflect.DeepEqual on the tree, equal error text), 0<L<T fails; " +
-			"on a limit failure the hook counters must show at most L+2 lexer reads and no byte scanned beyond the start of reference token L+2; multi-source ParseSchemasWithLimit is checked per source; " +
+			"on a limit failure the hook counters must show at most 2L+8 lexer reads (L+1 is what the library does today) and no byte scanned beyond the start of reference token 2L+8; multi-source ParseSchemasWithLimit is checked per source; " +
 			"floods (1-8 MiB of nesting, tokens, comments) under small limits run with a lowered stack ceiling so recursion not bounded by L is a fatal exit. " +
 			"distinct = distinct (grammar, T) pairs explored over all limits; non-trivial = documents with T>=3",
 		Assumptions: []string{
@@ -333,10 +333,14 @@ func c16Limits(x *core.Ctx, g, text string) {
 				if isLimitErr(a.err) {
 					// work bound: the parser may look one token ahead of the L it consumed
 					x.Count("work_checked")
-					if a.reads > int64(L)+2 {
-						x.Violate("work:tokens-read:"+g, fmt.Sprintf("limit %d: %d lexer reads", L, a.reads), "at most L+2")
+					// "work proportional to L": the parser consumes L tokens and may look a few tokens ahead; the bound
+					// is deliberately not the tightest possible (L+1 today) so that a harmless change of look-ahead
+					// is not an alarm, while reading on to the end of a long input is
+					if a.reads > 2*int64(L)+8 {
+						x.Violate("work:tokens-read:"+g, fmt.Sprintf("limit %d: %d lexer reads", L, a.reads), "at most 2L+8")
 					}
-					idx := L + 1
+					x.Max("lexer_reads_minus_limit", a.reads-int64(L))
+					idx := 2*L + 7
 					if idx > T {
 						idx = T
 					}
@@ -357,7 +361,7 @@ func c16Limits(x *core.Ctx, g, text string) {
 		}
 	}
 	if x.WantSample() && T >= 6 && len(text) < 300 && judgedT {
-		x.Sample(map[string]interface{}{"grammar": g, "source": text, "reference_token_count": T, "unlimited": errText(u.err), "limits_tried": fmt.Sprintf("0..%d", maxL), "verdict": "exact and monotone; reads <= L+2 on every limit failure"})
+		x.Sample(map[string]interface{}{"grammar": g, "source": text, "reference_token_count": T, "unlimited": errText(u.err), "limits_tried": fmt.Sprintf("0..%d", maxL), "verdict": "exact and monotone; reads <= 2L+8 on every limit failure"})
 	}
 }
 
@@ -423,16 +427,16 @@ func c16Flood(x *core.Ctx, s string, lim int) {
 		reads := verifhook.Counts[verifhook.SiteLexRead]
 		lastAt := verifhook.Gauges[verifhook.SiteLexRead]
 		x.Max("flood_lexer_reads_minus_limit", reads-int64(lim))
-		if reads > int64(lim)+2 {
-			x.Violate("work:tokens-read:flood:"+g, fmt.Sprintf("limit %d: %d lexer reads on %d bytes", lim, reads, len(s)), "at most L+2")
+		if reads > 2*int64(lim)+8 {
+			x.Violate("work:tokens-read:flood:"+g, fmt.Sprintf("limit %d: %d lexer reads on %d bytes", lim, reads, len(s)), "at most 2L+8")
 		}
 		// every flood piece is at most 16 bytes per token, and the pre-amble at most 16 bytes
-		if bound := int64(lim+2)*16 + 32; lastAt > bound {
+		if bound := int64(2*lim+8)*16 + 32; lastAt > bound {
 			x.Violate("work:bytes-scanned:flood:"+g, fmt.Sprintf("limit %d: scanned to byte %d of %d", lim, lastAt, len(s)), fmt.Sprintf("at most %d", bound))
 		}
 		x.Count("work_checked")
 	}
 	if x.WantSample() {
-		x.Sample(map[string]interface{}{"flood_bytes": len(s), "prefix": s[:min(len(s), 40)], "limit": lim, "lexer_reads": verifhook.Counts[verifhook.SiteLexRead], "verdict": "failed after reading at most L+2 tokens"})
+		x.Sample(map[string]interface{}{"flood_bytes": len(s), "prefix": s[:min(len(s), 40)], "limit": lim, "lexer_reads": verifhook.Counts[verifhook.SiteLexRead], "verdict": "failed after reading at most 2L+8 tokens"})
 	}
 }
